@@ -240,8 +240,8 @@ def build_obj(spec, lsb0: bool, made: list):
         else:
             x = cls(io.BytesIO(raw), length=L if uselen else None, offset=off)
     elif r == 'bitarray_kw':
-        off, extra, fill, uselen = a
-        ba = bitarray.bitarray(fill * off + bits + (fill * extra if uselen else ''))
+        off, extra, fill, uselen = a[:4]
+        ba = bitarray.bitarray(fill * off + bits + (fill * extra if uselen else ''), endian='little' if len(a) > 4 and a[4] else 'big')
         x = cls(bitarray=ba, length=L if uselen else None, offset=off)
     elif r == 'bytes_auto':
         x = cls(to_raw(bits))
@@ -454,7 +454,7 @@ def route_arg(rng, r, L, lsb0):
         uselen = 1
         if extra == 0 and (r == 'bitarray_kw' or (off + L) % 8 == 0) and rng.random() < 0.5:
             uselen = 0
-        return [off, extra, rng.choice('01'), uselen]
+        return [off, extra, rng.choice('01'), uselen] + ([rng.random() < 0.4] if r == 'bitarray_kw' else [])
     if r in ('slice', 'read'):
         return [rng.choice([0, 1, 3, 8, 13]), rng.choice([0, 1, 5, 8])]
     if r == 'copy_from':
